@@ -43,6 +43,7 @@ def k1_probe(rep):
 def run(rep, tier):
     lib.proof_gate(rep, PROP, THEOREMS, IMPORTS)
     n, nv = (120, 160) if tier == "quick" else (8000, 400)
+    n = rep.scale(n)
     agg = runner.correspondence(rep, prop=PROP, mod_name="harness.decsim", driver_kind="wbdec", ncases=n, extra=("wb", nv),
                                 nontrivial=lambda r: r["stats"]["subs"] >= 2 and r["stats"]["responses"] >= 5,
                                 sample_fmt=lambda r: {"decoder": r["descr"], "vectors": [l[:140] for l in r["lines"][r["stats"]["subs"] + 1:][:3]], "observed": [o[:160] for o in r["obs"][:3]]})
